@@ -321,6 +321,30 @@ Fixpoint next_urls (base : string) (ps : list page) : list string :=
   | p :: r => match p_next p with Some h => (base ++ h) :: next_urls base r | None => [] end
   end.
 
+(* instants whose year strftime renders with four digits: all of years 1..9999 when it pads, 1000..9999 when not *)
+Definition year_ok (pad : bool) (t : Z) : Prop :=
+  if pad then (min_t <= t <= max_t)%Z else (ordinal 1000 1 1 * 86400 <= t <= max_t)%Z.
+
+(* what one converted field is, case by case *)
+Definition field_converted (zn : string) (z : zone) (v v' : jv) : Prop :=
+  match v with
+  | JStr s =>
+      match parse_rfc1123 s with
+      | Some u => exists a, v' = JDate a /\ instant a = u /\ a_off a = z u /\ a_zone a = zn
+      | None => v' = v
+      end
+  | JSeries ts =>
+      exists l, v' = JSeriesP l /\ List.length l = List.length ts /\
+                forall i, (i < List.length ts)%nat ->
+                  exists a, nth_error l i = Some a /\ parse_http_date zn z (nth i ts "") = Ok a
+  | _ => v' = v
+  end.
+
+(* a document parse_dates accepts, and the document after conversion *)
+Definition convertible (tz : tzdb) (d : doc) : Prop := exists d', parse_dates tz d = Ok d'.
+Definition converted (tz : tzdb) (d : doc) : doc :=
+  match parse_dates tz d with Ok d' => d' | Err _ => d end.
+
 (* ------------------------------------------------------------------ correspondence cases *)
 Definition tz_of_tables (tabs : list (string * list (Z * Z))) : tzdb :=
   fun name =>
